@@ -2,9 +2,9 @@
 (* Mode "unquote": every string up to MaxLen over the alphabet in the three quoting styles (plus the raw bodies as
    literal text, which exercises invalid escapes): the inversion theorems are invariants and one Q line per literal gives
    the expected result of participle.Unquote.  Mode "mappers": every stream up to MaxStream over three token types x
-   every choice of three mappers: invariant SeesExactlyOnce, one M line with the expected call log.          *)
+   every choice of NMappers mappers (3 with longer streams, 6 with streams of at most one token): invariant SeesExactlyOnce, one M line with the expected call log.          *)
 EXTENDS Quoting
-CONSTANTS MaxLen, MaxStream, Mode
+CONSTANTS MaxLen, MaxStream, Mode, NMappers
 Strings == UNION {[1..k -> Content] : k \in 0..MaxLen}
 Types == {"A", "B", "C"}
 Sels == {{}, {"A"}, {"B"}, {"A", "B"}, {"C"}}
@@ -34,7 +34,7 @@ Init == /\ done = FALSE
                 /\ stream = <<>> /\ msel = <<>>
            ELSE /\ s = <<>> /\ form = ""
                 /\ stream \in UNION {[1..k -> Types] : k \in 0..MaxStream}
-                /\ msel \in [1..3 -> Sels]
+                /\ msel \in [1..NMappers -> Sels]
 RECURSIVE SelStr(_, _), LogStr(_, _), SeqStr(_, _)
 SeqStr(x, i) == IF i > Len(x) THEN "" ELSE x[i] \o SeqStr(x, i + 1)
 SelName(S) == CASE S = {} -> "*" [] S = {"A"} -> "A" [] S = {"B"} -> "B" [] S = {"C"} -> "C" [] OTHER -> "AB"
